@@ -175,7 +175,7 @@ def diff_snap(a, b):
     return None
 
 
-OPS = ("group", "points", "curve", "data", "rename", "move", "copy", "remove_ws", "remove_parent", "pg_add", "pg_remove", "reopen", "gc", "flag", "copy_edit", "remove_vertex", "move_data", "protect", "remove_protected", "deferred", "pg_foreign", "list_registries", "pg_drop")
+OPS = ("group", "points", "curve", "data", "rename", "move", "copy", "remove_ws", "remove_parent", "pg_add", "pg_remove", "reopen", "gc", "flag", "copy_edit", "remove_vertex", "move_data", "protect", "remove_protected", "deferred", "pg_foreign", "list_registries", "pg_drop", "remove_foreign_pg")
 
 
 def run_ops(case):
@@ -328,6 +328,13 @@ def run_ops(case):
                         o.create_property_group(name=fresh("foreign"), properties=[foreign])
                     except Exception:
                         pass
+            elif op == "remove_foreign_pg":
+                # an object is asked to drop a property group that belongs to another object: nothing to do, nothing written
+                owners = [x for x in objs() if x.property_groups]
+                o2 = pick(owners, a)
+                o = pick([x for x in objs() if x is not o2], b)
+                if o is not None and o2 is not None:
+                    o.remove_children([o2.property_groups[0]])
             elif op == "list_registries":
                 # the workspace's listings answer at any time (entries of entities that are gone are dropped on the way)
                 _ = len(ws.groups), len(ws.objects), len(ws.data), len(ws.types), len(ws.property_groups)
@@ -399,7 +406,7 @@ class ApiHistories(Contract):
     has_native = True
     native_shards = 4
     props = ("C01", "C02", "C05", "C09")
-    bounded_scope = "seeded operation sequences of length 6-14 over {create group/points/curve/data, create a points object without write-through (save_on_creation=False), rename, flag, move, copy, copy then edit the copy's values in place, remove a vertex, move a data set to another object, switch a delete permission off and ask for the removal (also after a re-open), remove through the workspace / through the parent, property-group add/remove, a property group asked to list another object's data, re-open, gc}: 40 sequences (quick) / 600 (thorough) + 15 fixed; WF(file) after every close, live tree == re-opened tree, removed entities stay gone, idle open/close leaves all node digests unchanged"
+    bounded_scope = "seeded operation sequences of length 6-14 over {create group/points/curve/data, create a points object without write-through (save_on_creation=False), rename, flag, move, copy, copy then edit the copy's values in place, remove a vertex, move a data set to another object, switch a delete permission off and ask for the removal (also after a re-open), remove through the workspace / through the parent, property-group add/remove, a property group asked to list another object's data, re-open, gc}: 40 sequences (quick) / 600 (thorough) + 16 fixed; WF(file) after every close, live tree == re-opened tree, removed entities stay gone, idle open/close leaves all node digests unchanged"
     fixed = [
         [("group", 0, 0), ("points", 0, 0), ("data", 0, 0), ("data", 0, 0), ("data", 0, 0), ("data", 0, 0), ("remove_ws", 0, 0), ("reopen", 0, 0)],
         [("points", 0, 0), ("data", 0, 0), ("data", 0, 0), ("pg_add", 0, 1), ("pg_add", 0, 0), ("remove_ws", 2, 0), ("reopen", 0, 0)],
@@ -414,6 +421,7 @@ class ApiHistories(Contract):
         [("points", 0, 0), ("data", 0, 0), ("copy_edit", 0, 0), ("reopen", 0, 0), ("copy_edit", 1, 0), ("reopen", 0, 0)],
         [("group", 0, 0), ("points", 0, 0), ("deferred", 0, 0), ("deferred", 1, 0), ("data", 1, 0), ("reopen", 0, 0), ("deferred", 0, 0), ("reopen", 0, 0)],
         [("points", 0, 0), ("points", 0, 0), ("data", 0, 0), ("data", 1, 0), ("pg_foreign", 0, 0), ("reopen", 0, 0), ("pg_foreign", 1, 0), ("reopen", 0, 0)],
+        [("points", 0, 0), ("points", 0, 0), ("data", 0, 0), ("pg_add", 0, 0), ("remove_foreign_pg", 0, 0), ("reopen", 0, 0)],
         [("points", 0, 0), ("data", 0, 0), ("pg_add", 0, 0), ("list_registries", 0, 0), ("pg_drop", 0, 0), ("gc", 0, 0), ("list_registries", 0, 0), ("reopen", 0, 0), ("list_registries", 0, 0)],
         [("group", 0, 0), ("curve", 0, 0), ("data", 0, 0), ("data", 0, 0), ("copy_edit", 0, 0), ("remove_vertex", 0, 2), ("reopen", 0, 0)],
     ]
